@@ -201,8 +201,14 @@ def check_index(interp, v, raw, numba, node):
     n = v.n
     if numba:
         # A-4: numba does no bounds checking and wraps negative indices; both are obligations
-        ok = in_range(raw, 0, n)
         qual = interp_cur_qual(interp)
+        if ctx.cfg.extra.get('numba_split'):
+            # two separate obligations: a negative index wraps to the END of the array (a read of later elements: causality),
+            # an index >= len is out of bounds (undefined behaviour, not a causality matter)
+            ctx.prove(ops.compare('>=', raw, 0), f'{qual}.subscript.never-negative', {'at': _subs_id(interp, node)})
+            ctx.prove(ops.compare('<', raw, n), f'{qual}.subscript.below-length', {'at': _subs_id(interp, node)})
+            return raw
+        ok = in_range(raw, 0, n)
         ctx.prove(ok, f'{qual}.subscript.in-bounds', {'at': _subs_id(interp, node)})
         return raw
     if ctx.pure:
@@ -1783,6 +1789,18 @@ def _np_gcd_reduce(i, a, k):
     return r
 
 
+def _np_lcm_reduce(i, a, k):
+    import math as _m
+    xs = i.iterate(a[0])
+    if not all(isinstance(x, int) and not isinstance(x, bool) for x in xs):
+        raise OutOfSubset('lcm of symbolic values')
+    used('numpy.lcm.reduce = least common multiple (trusted)')
+    r = 1
+    for x in xs:
+        r = r * x // _m.gcd(r, x) if x else 0
+    return r
+
+
 ISINSTANCE_HOOKS = []
 
 
@@ -2007,7 +2025,7 @@ def ext_call(name):
             'numpy.ceil': _np_ceil, 'numpy.all': np_all, 'numpy.any': np_any, 'numpy.where': _np_where,
             'numpy.maximum': _np_maximum, 'numpy.minimum': _np_minimum, 'numpy.max': _np_max, 'numpy.min': _np_min,
             'numpy.amax': _np_max, 'numpy.amin': _np_min, 'numpy.nanmax': _np_max, 'numpy.nanmin': _np_min,
-            'numpy.sum': _np_sum, 'numpy.abs': _b_abs, 'numpy.absolute': _b_abs, 'numpy.array_equal': _np_array_equal, 'numpy.array_equiv': _np_array_equiv, 'numpy.gcd.reduce': _np_gcd_reduce,
+            'numpy.sum': _np_sum, 'numpy.abs': _b_abs, 'numpy.absolute': _b_abs, 'numpy.array_equal': _np_array_equal, 'numpy.array_equiv': _np_array_equiv, 'numpy.gcd.reduce': _np_gcd_reduce, 'numpy.lcm.reduce': _np_lcm_reduce,
             'numpy.isnan': _np_isnan, 'numpy.round': _np_round, 'numpy.copy': lambda i, a, k: np_copy(a[0]),
             'numpy.sqrt': lambda i, a, k: elementwise1(i, lambda x: np_sqrt_scalar(i, x), a[0]),
             'math.isnan': _math_isnan, 'math.floor': _math_floor, 'math.ceil': _math_ceil, 'math.sqrt': _math_sqrt,
